@@ -6,13 +6,12 @@
      in which it started (C10_allocation_only_when_valid); passing _is_valid on a level with declared hardware
      means ledger + requirement <= capacity on cores, memory and every mount point of the requirement, and the
      ledger after reserving is again within capacity (C10_valid_level_fits, C10_reserve_within_capacity_partial:
-     "partial" because they speak of ONE level; the induction over whole histories — ledger = sum of the
-     reservations of fireable/running jobs + measured residue — is NOT proved, it is checked on every real run by
-     the oracle and the correspondence); on slot levels validity is exactly count < slots (C10_valid_slots).
+     "partial" because they speak of ONE level; the induction over whole histories is C10_capacity /
+     C10_capacity_slots below, on the flat single-location domain); on slot levels validity is exactly count < slots (C10_valid_slots).
    What is false of the code and proved false of the model: with several locations per target sharing an inner
    location the ledger exceeds the capacity (C10_shared_inner_refuted = known finding). *)
 From Coq Require Import List Bool ZArith NArith.
-From SF Require Import Base.Str Hardware.Model Hardware.Proofs Sched.Model Sched.Proofs Sched.Witness.
+From SF Require Import Base.Str Hardware.Model Hardware.Proofs Sched.Model Sched.Proofs Sched.History Sched.Slots Sched.Witness Sched.Examples.
 Import ListNotations.
 Local Open Scope string_scope. Local Open Scope list_scope. Local Open Scope Z_scope.
 
@@ -58,6 +57,53 @@ Theorem C10_valid_slots : forall st reqs job l,
   Ok (N.ltb (N.of_nat (length (running_jobs st job l))) (match lv_slots l with Some s => s | None => 1%N end)).
 Proof. exact slot_level_valid. Qed.
 
+(* ---------------------------------------------------------------------------------------------------------
+   C10_capacity — over whole histories.  Domain (all of it is in the hypotheses): [locs] are flat locations (not
+   stacked) identified by their names, with well-formed non-negative capacities that have a "/" mount point;
+   [conformant locs init h] (Sched/History.v) says that every event of the history h, in the state in which it occurs:
+   evaluates a request for ONE location among single-level candidates of [locs] with well-formed non-negative
+   requirements, for a job that is not fireable/running; or notifies a status where RUNNING goes only to a
+   fireable/running job and FIREABLE only to a fireable one (every other status at any time, repeated, in any order),
+   with du results not above the reservation.  Then after EVERY prefix p of the history, on every location with
+   declared hardware: what fireable/running jobs reserve (sum over the job table) = ledger - measured residue, the
+   residue is 0 on cores and memory and >= 0 per mount point, and reserved <= ledger <= capacity on cores, memory and
+   every mount point (x ranges over MC, MM, MS m).  On every slot location the number of fireable/running jobs is
+   <= its slots.  The boundary of the domain is witnessed by C10_shared_inner_refuted (stacked on a shared inner
+   location, 2 locations per target). *)
+Theorem C10_capacity : forall locs,
+  (forall l1 l2, In l1 locs -> In l2 locs -> lv_name l1 = lv_name l2 -> l1 = l2) ->
+  (forall l cap, In l locs -> lv_cap l = Some cap -> wfr cap /\ In "/" (mounts cap)) ->
+  forall p q st l cap,
+  conformant locs init (p ++ q) -> run init p = Ok st -> In l locs -> lv_cap l = Some cap ->
+  let G := measured init p g0 in
+  let led := mu_o (lookup (lv_name l) (hwloc st)) in
+  (forall x, reserved st (lv_name l) x = led x - G (lv_name l) x) /\
+  G (lv_name l) MC = 0 /\ G (lv_name l) MM = 0 /\ (forall m, 0 <= G (lv_name l) (MS m)) /\
+  (forall x, reserved st (lv_name l) x <= led x) /\ (forall x, led x <= mu cap x) /\
+  (forall x, reserved st (lv_name l) x <= mu cap x).
+Proof. exact capacity_invariant. Qed.
+
+Theorem C10_capacity_slots : forall locs,
+  (forall l1 l2, In l1 locs -> In l2 locs -> lv_name l1 = lv_name l2 -> l1 = l2) ->
+  (forall l cap, In l locs -> lv_cap l = Some cap -> wfr cap /\ In "/" (mounts cap)) ->
+  forall p q st l,
+  conformant locs init (p ++ q) -> run init p = Ok st -> In l locs -> lv_cap l = None ->
+  nactive st (lv_name l) <= Z.of_N (slots_of l).
+Proof. exact slots_invariant. Qed.
+
+(* the hypotheses are satisfiable: a configuration with a hardware and a slot location and a conformant history
+   (schedule, RUNNING twice, a second and a third job on the 1-slot location, COMPLETED twice, FAILED while fireable) *)
+Example C10_capacity_hypotheses_met :
+  (forall l1 l2, In l1 ex_locs -> In l2 ex_locs -> lv_name l1 = lv_name l2 -> l1 = l2) /\
+  (forall l cap, In l ex_locs -> lv_cap l = Some cap -> wfr cap /\ In "/" (mounts cap)) /\
+  conformant ex_locs init ex_history /\
+  (exists st, run init (firstn 5 ex_history) = Ok st /\
+     reserved st "n0" MC = 2 /\ reserved st "n0" (MS "/") = 6 /\ nactive st "s0" = 1).
+Proof.
+  split; [exact ex_names|]. split; [exact ex_caps|]. split; [exact ex_conformant|].
+  eexists. split; [vm_compute; reflexivity|]. vm_compute. repeat split; reflexivity.
+Qed.
+
 (* known finding: 2 locations per target, both stacked on host/h0 (memory 16); the job needs memory 8 *)
 Theorem C10_shared_inner_refuted :
   exists st' h, attempt init "/s0/2" shared_cands (shared_reqs 3 8) 2 [] = Ok (st', ["d0l0"; "d0l1"], true) /\
@@ -77,4 +123,6 @@ Print Assumptions C10_valid_level_fits.
 Print Assumptions C10_reserve_within_capacity_partial.
 Print Assumptions C10_reserve_is_ledger_plus_requirement.
 Print Assumptions C10_valid_slots.
+Print Assumptions C10_capacity.
+Print Assumptions C10_capacity_slots.
 Print Assumptions C10_shared_inner_refuted.
